@@ -336,6 +336,12 @@ func runC13(c c13Case) *vh.Outcome {
 		o.Fail = vh.Failf("C13/panic/"+c.Backend, "session with identifiers %v panicked: %s", c.IDs, real.Panic)
 		return o
 	}
+	if !twin.OK && !real.OK {
+		// both fail: nothing about identifiers, but the session is fault-free and every frame is delivered - a round number (or
+		// digest) that does not survive the wire breaks BOTH runs alike, and only an absolute verdict can see that
+		o.Fail = vh.Failf("C13/fault-free-session-failed/"+c.Op, "a fault-free %s session (backend %s, rounds %v, silent=%v) fails with identifiers %v AND with identifiers 1..%d: %v", c.Op, c.Backend, c.Rounds, c.Silent, c.IDs, len(c.IDs), real.Errs)
+		return o
+	}
 	if !twin.OK {
 		// the small-identifier twin itself failed: not an identifier problem; report as discard so it is visible
 		o.Discard = "twin-with-small-identifiers-failed"
